@@ -144,6 +144,14 @@ func setupRelay(ca *harnessCA, cert tls.Certificate) (client, server *h2End, clo
 	return newH2End("client", cc), newH2End("server", sc), closing, done, nil
 }
 
+// h2Prio: the priority fields a HEADERS frame carries, if the schedule says it carries any.
+func h2Prio(on, i int) http2.PriorityParam {
+	if on == 0 {
+		return http2.PriorityParam{}
+	}
+	return http2.PriorityParam{StreamDep: 0, Exclusive: i%2 == 0, Weight: uint8(15 + i)}
+}
+
 func h2Fields(kind string, i int, big bool) []hpack.HeaderField {
 	fs := []hpack.HeaderField{
 		{Name: ":method", Value: "POST"}, {Name: ":path", Value: fmt.Sprintf("/%s/%d", kind, i)},
@@ -257,6 +265,11 @@ func h2Scenario1(seed int64, idx int, dir string, acts []h2Act, ca *harnessCA, c
 	var bmu sync.Mutex
 	expHdr := map[uint32][][]hpack.HeaderField{}
 	expES := map[uint32][]bool{}
+	type pushExp struct {
+		promised uint32
+		fields   []hpack.HeaderField
+	}
+	expPush := map[uint32][]pushExp{}
 	rcvOff := map[uint32]int{}
 	go func() {
 		var blk bytes.Buffer
@@ -293,6 +306,7 @@ func h2Scenario1(seed int64, idx int, dir string, acts []h2Act, ca *harnessCA, c
 				bmu.Lock()
 				if uint32(f.Length) > maxFrame {
 					sc.problem(fmt.Sprintf("C09:maxframe: HEADERS frame of %d octets exceeds SETTINGS_MAX_FRAME_SIZE %d", f.Length, maxFrame))
+					sc.problem(fmt.Sprintf("C10:headers: HEADERS frame of %d octets: a receiver holding the sender to its SETTINGS_MAX_FRAME_SIZE %d rejects it and never decodes the header list", f.Length, maxFrame))
 				}
 				bmu.Unlock()
 				if f.HeadersEnded() {
@@ -303,13 +317,47 @@ func h2Scenario1(seed int64, idx int, dir string, acts []h2Act, ca *harnessCA, c
 				bmu.Lock()
 				if uint32(f.Length) > maxFrame {
 					sc.problem(fmt.Sprintf("C09:maxframe: CONTINUATION frame of %d octets exceeds SETTINGS_MAX_FRAME_SIZE %d", f.Length, maxFrame))
+					sc.problem(fmt.Sprintf("C10:headers: CONTINUATION frame of %d octets: a receiver holding the sender to its SETTINGS_MAX_FRAME_SIZE %d rejects it and never decodes the header list", f.Length, maxFrame))
 				}
 				bmu.Unlock()
 				if f.HeadersEnded() {
 					h2Decoded(sc, B, &bmu, expHdr, expES, hs, hes, blk.Bytes())
 				}
 			case *http2.RSTStreamFrame:
-				sc.log("b_recv", "t", "R", "s", int(f.StreamID), "n", 0, "es", false)
+				sc.log("b_recv", "t", "R", "s", int(f.StreamID), "n", int(f.ErrCode), "es", false)
+			case *http2.PushPromiseFrame:
+				// (the relay's own framer only reads PUSH_PROMISE with END_HEADERS)
+				got, err := decodeBlock(B.dec, f.HeaderBlockFragment())
+				bmu.Lock()
+				if uint32(f.Length) > maxFrame {
+					sc.problem(fmt.Sprintf("C09:maxframe: PUSH_PROMISE frame of %d octets exceeds SETTINGS_MAX_FRAME_SIZE %d", f.Length, maxFrame))
+				}
+				switch {
+				case err != nil:
+					sc.problem("C10:push: receiver cannot decode the relayed PUSH_PROMISE block: " + err.Error())
+				case len(expPush[f.StreamID]) == 0:
+					sc.problem(fmt.Sprintf("C10:push: unexpected PUSH_PROMISE on stream %d", f.StreamID))
+				default:
+					w := expPush[f.StreamID][0]
+					expPush[f.StreamID] = expPush[f.StreamID][1:]
+					if w.promised != f.PromiseID || !eqFields(got, w.fields) {
+						sc.problem(fmt.Sprintf("C10:push: PUSH_PROMISE on stream %d promises %d with %d fields, sent: %d with %d fields", f.StreamID, f.PromiseID, len(got), w.promised, len(w.fields)))
+					}
+				}
+				bmu.Unlock()
+				sc.log("b_recv", "t", "PP", "s", int(f.StreamID), "n", int(f.PromiseID), "es", false)
+			case *http2.PingFrame:
+				if !f.IsAck() {
+					if f.Data != [8]byte{f.Data[0], 'p', 'i', 'n', 'g', 0, 0, 7} {
+						sc.problem(fmt.Sprintf("C10:ping: PING payload %x differs from what was sent", f.Data))
+					}
+					sc.log("b_ping", "n", int(f.Data[0]))
+				}
+			case *http2.GoAwayFrame:
+				if f.LastStreamID != 3 || f.ErrCode != http2.ErrCodeEnhanceYourCalm || string(f.DebugData()) != "bye" {
+					sc.problem(fmt.Sprintf("C10:goaway: GOAWAY relayed as last-stream %d code %v debug %q", f.LastStreamID, f.ErrCode, f.DebugData()))
+				}
+				sc.log("b_goaway")
 			}
 		}
 	}()
@@ -423,11 +471,11 @@ func h2Scenario1(seed int64, idx int, dir string, acts []h2Act, ca *harnessCA, c
 			bmu.Unlock()
 			sc.log("a_headers", "s", int(a.S), "es", a.Es, "open", false)
 			A.wmu.Lock()
-			err = A.fr.WriteHeaders(http2.HeadersFrameParam{StreamID: a.S, BlockFragment: blk, EndStream: a.Es, EndHeaders: true})
+			err = A.fr.WriteHeaders(http2.HeadersFrameParam{StreamID: a.S, BlockFragment: blk, EndStream: a.Es, EndHeaders: true, Priority: h2Prio(a.Pad, hdrN)})
 			A.wmu.Unlock()
 		case "headers_open":
 			hdrN++
-			openFields = h2Fields(dir, hdrN, hdrN%2 == 0)
+			openFields = h2Fields(dir, hdrN, a.N == 1)
 			blk := A.encode(openFields)
 			cut := len(blk) / 2
 			if cut > 16000 {
@@ -439,7 +487,7 @@ func h2Scenario1(seed int64, idx int, dir string, acts []h2Act, ca *harnessCA, c
 			inBlock = true
 			amu.Unlock()
 			A.wmu.Lock()
-			err = A.fr.WriteHeaders(http2.HeadersFrameParam{StreamID: a.S, BlockFragment: blk[:cut], EndStream: a.Es, EndHeaders: false})
+			err = A.fr.WriteHeaders(http2.HeadersFrameParam{StreamID: a.S, BlockFragment: blk[:cut], EndStream: a.Es, EndHeaders: false, Priority: h2Prio(a.Pad, hdrN)})
 			A.wmu.Unlock()
 		case "cont":
 			if openFields == nil {
@@ -462,9 +510,38 @@ func h2Scenario1(seed int64, idx int, dir string, acts []h2Act, ca *harnessCA, c
 			openFields = nil
 			flushAcks()
 		case "rst":
-			sc.log("a_rst", "s", int(a.S))
+			sc.log("a_rst", "s", int(a.S), "n", a.N)
 			A.wmu.Lock()
-			err = A.fr.WriteRSTStream(a.S, http2.ErrCodeCancel)
+			err = A.fr.WriteRSTStream(a.S, http2.ErrCode(a.N))
+			A.wmu.Unlock()
+		case "push":
+			if dir != "s2c" {
+				continue // only a server pushes
+			}
+			hdrN++
+			fields := h2Fields("push", hdrN, false)
+			blk := A.encode(fields)
+			bmu.Lock()
+			expPush[a.S] = append(expPush[a.S], pushExp{uint32(a.N), fields})
+			bmu.Unlock()
+			sc.log("a_push", "s", int(a.S), "n", a.N)
+			A.wmu.Lock()
+			err = A.fr.WritePushPromise(http2.PushPromiseParam{StreamID: a.S, PromiseID: uint32(a.N), BlockFragment: blk, EndHeaders: true})
+			A.wmu.Unlock()
+		case "prio":
+			sc.log("a_prio", "s", int(a.S))
+			A.wmu.Lock()
+			err = A.fr.WritePriority(a.S, http2.PriorityParam{StreamDep: 0, Exclusive: hdrN%2 == 0, Weight: uint8(40 + hdrN)})
+			A.wmu.Unlock()
+		case "ping":
+			sc.log("a_ping", "n", a.N)
+			A.wmu.Lock()
+			err = A.fr.WritePing(false, [8]byte{byte(a.N), 'p', 'i', 'n', 'g', 0, 0, 7})
+			A.wmu.Unlock()
+		case "goaway":
+			sc.log("a_goaway")
+			A.wmu.Lock()
+			err = A.fr.WriteGoAway(3, http2.ErrCodeEnhanceYourCalm, []byte("bye"))
 			A.wmu.Unlock()
 		case "ctl":
 			switch a.T {
